@@ -120,9 +120,10 @@ func (r *Report) Infof(format string, a ...any) { r.Info = append(r.Info, fmt.Sp
 // Floor records a vacuity guard: fewer than min instances is a failed check.
 func (r *Report) Floor(what string, got, min int) {
 	r.Floors = append(r.Floors, Floor{what, got, min})
-	if got < min {
-		r.Fatal = append(r.Fatal, fmt.Sprintf("vacuity: %s: got %d, need >= %d", what, got, min))
-	}
+	// fewer instances than were confirmed by hand on the pinned tree: the code no longer has the
+	// shape the rule was written for, so the property cannot be claimed to hold
+	r.Add("VACUITY.floor", r.Prop, what, "", got >= min,
+		fmt.Sprintf("the rule matched %d instances, at least %d were confirmed on the pinned tree: constructs the rule relies on have disappeared", got, min))
 }
 
 func (r *Report) Fatalf(format string, a ...any) {
@@ -242,7 +243,9 @@ func (r *Report) Finish(verifDir string) int {
 		for _, f := range r.Fatal {
 			fmt.Printf("CHECKER-FAILURE property=%s %s\n", r.Prop, f)
 		}
-		return 2
+		if viol == 0 {
+			return 2
+		}
 	}
 	replay := filepath.Join(evDir, r.Prop+".violation.json")
 	if viol > 0 {
